@@ -63,6 +63,7 @@ def SafeOp : Op → Prop
   | .append _ => True
   | .setPosition p => 127 ≤ p
   | .writeStart _ => False
+  | .truncate => False
 
 structure J (w : W) : Prop where
   hz : HeadZero w.file
@@ -79,6 +80,7 @@ theorem applyCut_safe {w : W} (h : J w) {op : Op} (hs : SafeOp op) (k : Nat) : J
       rw [getElem?_writeAt_lt _ _ _ _ (by have := h.pos; omega)]
       exact h.hz i hi
   | writeStart b => exact absurd hs (by simp [SafeOp])
+  | truncate => exact absurd hs (by simp [SafeOp])
   | setPosition p =>
     simp only [W.applyCut]
     split
@@ -546,6 +548,159 @@ theorem versatiles_crash_safe (dec : Dec) (pre metaC : Bytes) (mid : List Bytes)
                 have := congrArg List.length he
                 simp at this
                 omega
+
+/-! ### writing over an existing file
+
+`DataWriterFile::from_path` uses `File::create`, which empties an existing file before the first
+operation: the run is `truncate :: ops` on the old bytes.  Until the truncation has happened the
+old file is untouched (`s = old`); afterwards everything is as on a fresh path – for EVERY `old`.
+Without the truncation the old header survives (`no_truncate_header_survives`,
+`no_truncate_unsafe`). -/
+
+theorem crashOn_eq (old : Bytes) (ops : List Op) (i k : Nat) :
+    crashOn old ops i k = crashFrom { file := old, pos := 0 } ops i k := rfl
+
+theorem crashOn_truncate (old : Bytes) (ops : List Op) (i k : Nat) :
+    crashOn old (.truncate :: ops) (i + 1) k = crash ops i k := by
+  rw [crashOn_eq, crashFrom_cons, crash_eq]
+  rfl
+
+theorem runOn_truncate (old : Bytes) (ops : List Op) : runOn old (.truncate :: ops) = run ops := rfl
+
+theorem crashOn_truncate_zero (old : Bytes) (ops : List Op) (k : Nat) :
+    crashOn old (.truncate :: ops) 0 k = old ∨ crashOn old (.truncate :: ops) 0 k = [] := by
+  simp only [crashOn, List.getElem?_cons_zero, List.take_zero, List.foldl_nil, W.applyCut]
+  split
+  · exact Or.inl rfl
+  · exact Or.inr rfl
+
+/-- **C12, versatiles, over any existing file**: every crash state is the untouched old file
+    (the writer has not been created yet), or fails to open, or is the completed new file. -/
+theorem versatiles_overwrite_safe (dec : Dec) (old pre metaC : Bytes) (mid : List Bytes) (idxC : Bytes)
+    (hpre : pre.length = 34)
+    (hoff : 66 + metaC.length + mid.flatten.length < 256 ^ 8) (hlen : idxC.length < 256 ^ 8)
+    (hnil : dec .brotli [] = none)
+    (hprefix : ∀ p, p <+: idxC → p ≠ idxC → dec .brotli p = none)
+    (i k : Nat) :
+    let ops := Op.truncate :: opsV pre metaC mid idxC
+    crashOn old ops i k = old ∨ openV dec (crashOn old ops i k) = none ∨
+      crashOn old ops i k = (runOn old ops).file := by
+  intro ops
+  cases i with
+  | zero =>
+    rcases crashOn_truncate_zero old (opsV pre metaC mid idxC) k with h | h
+    · exact Or.inl h
+    · right; left
+      show openV dec (crashOn old (Op.truncate :: opsV pre metaC mid idxC) 0 k) = none
+      rw [h]; simp [openV, slice]
+  | succ i =>
+    right
+    show openV dec (crashOn old (Op.truncate :: opsV pre metaC mid idxC) (i + 1) k) = none ∨
+      crashOn old (Op.truncate :: opsV pre metaC mid idxC) (i + 1) k = (runOn old (Op.truncate :: opsV pre metaC mid idxC)).file
+    rw [crashOn_truncate, runOn_truncate]
+    exact versatiles_crash_safe dec pre metaC mid idxC hpre hoff hlen hnil hprefix i k
+
+/-- **C12, pmtiles, over any existing file** -/
+theorem pmtiles_overwrite_safe (dec : Dec) (old metaC : Bytes) (tiles : List Bytes) (rootC leavesC hdr : Bytes)
+    (hlen : hdr.length = 127) (i k : Nat) :
+    let ops := Op.truncate :: opsP metaC tiles rootC leavesC hdr
+    crashOn old ops i k = old ∨ openP dec (crashOn old ops i k) = none ∨
+      coreP (crashOn old ops i k) = coreP (runOn old ops).file := by
+  intro ops
+  cases i with
+  | zero =>
+    rcases crashOn_truncate_zero old (opsP metaC tiles rootC leavesC hdr) k with h | h
+    · exact Or.inl h
+    · right; left
+      show openP dec (crashOn old (Op.truncate :: opsP metaC tiles rootC leavesC hdr) 0 k) = none
+      rw [h]; simp [openP, slice]
+  | succ i =>
+    right
+    show openP dec (crashOn old (Op.truncate :: opsP metaC tiles rootC leavesC hdr) (i + 1) k) = none ∨
+      coreP (crashOn old (Op.truncate :: opsP metaC tiles rootC leavesC hdr) (i + 1) k)
+        = coreP (runOn old (Op.truncate :: opsP metaC tiles rootC leavesC hdr)).file
+    rw [crashOn_truncate, runOn_truncate]
+    exact pmtiles_crash_safe dec metaC tiles rootC leavesC hdr hlen i k
+
+/-! #### without the truncation -/
+
+theorem getElem?_writeAt_lt' (f b : Bytes) (pos i : Nat) (h : i < pos) (hi : i < f.length) :
+    (writeAt f pos b)[i]? = f[i]? := by
+  unfold writeAt
+  simp only []
+  rw [List.append_assoc, List.getElem?_append_left (by simp; omega)]
+  rw [List.getElem?_take_of_lt h, List.getElem?_append_left hi]
+
+/-- the first 127 bytes are those of `old` and the position is behind them -/
+structure Keeps (old : Bytes) (w : W) : Prop where
+  hd : ∀ i, i < 127 → w.file[i]? = old[i]?
+  len : 127 ≤ w.file.length
+  pos : 127 ≤ w.pos
+
+theorem applyCut_keeps {old : Bytes} {w : W} (h : Keeps old w) {op : Op} (hs : SafeOp op) (k : Nat) :
+    Keeps old (w.applyCut op k) := by
+  cases op with
+  | append b =>
+    simp only [W.applyCut]
+    split
+    · exact h
+    · refine ⟨fun i hi => ?_, ?_, by simp; have := h.pos; omega⟩
+      · simp only []
+        rw [getElem?_writeAt_lt' _ _ _ _ (by have := h.pos; omega) (by have := h.len; omega)]
+        exact h.hd i hi
+      · simp only [writeAt, List.length_append, List.length_take, List.length_drop, zeros_length]
+        have := h.len; have := h.pos; omega
+  | writeStart b => exact absurd hs (by simp [SafeOp])
+  | truncate => exact absurd hs (by simp [SafeOp])
+  | setPosition p =>
+    simp only [W.applyCut]
+    split
+    · exact h
+    · exact ⟨h.hd, h.len, hs⟩
+
+theorem foldl_keeps {old : Bytes} {w : W} (h : Keeps old w) (ops : List Op) (hs : ∀ op ∈ ops, SafeOp op) :
+    Keeps old (ops.foldl W.apply w) := by
+  induction ops generalizing w with
+  | nil => exact h
+  | cons op ops ih =>
+    exact ih (applyCut_keeps h (hs op (by simp)) _) (fun o ho => hs o (by simp [ho]))
+
+/-- **without truncation the old header survives**: if the path holds at least a header and the
+    writer is NOT preceded by a truncation, then in every crash state before the final header
+    write (after the initial `set_position`) the 127 header bytes are still the OLD header –
+    whatever has meanwhile been written behind it. -/
+theorem no_truncate_header_survives (old : Bytes) (hold : 127 ≤ old.length) (p0 : Nat) (hp0 : 127 ≤ p0)
+    (body : List Op) (hbody : ∀ op ∈ body, SafeOp op) (hdr : Bytes) (i k : Nat) (hi : i < body.length) :
+    ∀ j, j < 127 →
+      (crashOn old (Op.setPosition p0 :: (body ++ [Op.writeStart hdr])) (i + 1) k)[j]? = old[j]? := by
+  have hw0 : Keeps old (W.apply { file := old, pos := 0 } (.setPosition p0)) := by
+    refine ⟨fun j _ => ?_, ?_, ?_⟩ <;> simp [W.apply, W.applyCut, Op.size]
+    · exact hold
+    · exact hp0
+  rw [crashOn_eq, crashFrom_cons, crashFrom_append_lt _ _ _ _ _ hi]
+  unfold crashFrom
+  have hg : body[i]? = some body[i] := List.getElem?_eq_getElem hi
+  rw [hg]
+  exact (applyCut_keeps (foldl_keeps hw0 (body.take i) (fun o ho => hbody o (List.mem_of_mem_take ho)))
+    (hbody _ (List.getElem_mem hi)) k).hd
+
+/-- a tiny complete "pmtiles" file (uncompressed internals): root directory = byte 127 -/
+def exOldP : Bytes :=
+  magicP ++ [3] ++ leEnc 8 127 ++ leEnc 8 1 ++ leEnc 8 128 ++ leEnc 8 1 ++ leEnc 8 129 ++ leEnc 8 0 ++
+  leEnc 8 129 ++ leEnc 8 1 ++ zeros 24 ++ [1, 1, 1, 1] ++ zeros 27 ++ [5, 6, 7]
+
+set_option maxRecDepth 100000 in
+/-- **counterexample without truncation**: the old file is complete and opens; a new run that is
+    not preceded by a truncation writes a new root directory byte behind the header and stops
+    before its header write: the file still opens – with the OLD header – although it is neither
+    the old file nor (in its lookup-relevant part) the completed new one. -/
+theorem no_truncate_unsafe :
+    let dec := tableDec []
+    let ops := [Op.setPosition 127, .append [9], .writeStart (zeros 127)]
+    let s := crashOn exOldP ops 2 0
+    openP dec exOldP ≠ none ∧ openP dec s ≠ none ∧ s ≠ exOldP ∧ coreP s ≠ coreP (runOn exOldP ops).file ∧
+    (openP dec s).map (·.root) = some [9] := by
+  decide
 
 /-! ### non-vacuity -/
 
